@@ -10,6 +10,7 @@ import (
 	"crypto/sha256"
 	"fmt"
 	"hash"
+	"reflect"
 	"sync"
 	"time"
 
@@ -817,4 +818,4 @@ func runVSOT[P curves.Point[P, B, S], B algebra.PrimeFieldElement[B], S algebra.
 
 var _ sigma.ChallengeBytes
 
-func shortTypeOf[T any]() string { return shortType(reflectTypeFor[T]()) }
+func shortTypeOf[T any]() string { return shortType(reflect.TypeFor[T]()) }
